@@ -676,12 +676,27 @@ func (md *Model) Diff(actual []string) []Finding {
 			case hist&1 != 0:
 				add("stale_after_reset:"+where+":request", "a pingback verifier still counts as satisfied after a reset")
 			default:
-				add("lost:pingback", fmt.Sprintf("answer has %d 'pingback never occurred' error(s), want %d", a, e))
+				for l, s := range md.Seen {
+					if s == 0 {
+						where = md.Tree.Where(l)
+					}
+				}
+				add("lost:"+where+":request", fmt.Sprintf("answer has %d 'pingback never occurred' error(s), want %d", a, e))
 			}
 			continue
 		}
 		if a < e {
-			add("lost:"+tokKind(t), fmt.Sprintf("unmet evaluation %s expected %d time(s), reported %d time(s)", t, e, a))
+			where, sd := "?", "request"
+			for i := range md.Recs {
+				if r := &md.Recs[i]; r.Tok == t && r.State == Live {
+					where = md.Tree.Where(r.Leaf)
+					if r.Side == SideRes {
+						sd = "response"
+					}
+					break
+				}
+			}
+			add("lost:"+where+":"+sd, fmt.Sprintf("unmet evaluation %s expected %d time(s), reported %d time(s)", t, e, a))
 			continue
 		}
 		// a > e: look the token up in what was ever evaluated
